@@ -8,20 +8,71 @@ import Gama.Lemmas.ExportExamples
 namespace Gama.Export
 open Gama.Gen.GkfAttrs Gama.Gen.GkfDoc
 
+/-- a bijection of ℕ that is its own inverse (stands for the pair `* 0.324`, `* (1.0/0.324)`, which are mutually
+    inverse over a field: `sec_factors_cancel` below) -/
+def swap1 (n : Nat) : Nat := if n % 2 = 0 then n + 1 else n - 1
+
+theorem swap1_swap1 (n : Nat) : swap1 (swap1 n) = n := by
+  unfold swap1
+  split <;> split <;> omega
+
+def decFmtDeg (n : Nat) : String := String.ofList ('d' :: (Nat.repr ((n + 99) / 100)).toList)
+
+def decRdDeg (t : String) : Option Nat :=
+  match t.toList with
+  | 'd' :: r => (String.ofList r).toNat?.map (· * 100)
+  | _ => none
+
+theorem decRdDeg_d (r : List Char) : decRdDeg (String.ofList ('d' :: r)) = (String.ofList r).toNat?.map (· * 100) := by
+  unfold decRdDeg
+  rw [String.toList_ofList]
+  simp
+
+theorem decRdDeg_fmtDeg (x : Nat) : decRdDeg (decFmtDeg x) = some ((x + 99) / 100 * 100) := by
+  unfold decFmtDeg
+  rw [decRdDeg_d, String.ofList_toList, Nat.toNat?_repr]
+  rfl
+
+theorem decFmtDeg_round (x : Nat) : decFmtDeg ((x + 99) / 100 * 100) = decFmtDeg x := by
+  have : ((x + 99) / 100 * 100 + 99) / 100 = (x + 99) / 100 := by omega
+  unfold decFmtDeg
+  rw [this]
+
+theorem decRdDeg_repr (m : Nat) (h : ∀ r, (Nat.repr m).toList ≠ 'd' :: r) : decRdDeg (Nat.repr m) = none := by
+  unfold decRdDeg
+  split
+  · rename_i r hr
+    exact absurd hr (h r)
+  · rfl
+
+-- the unifier must not evaluate string operations (UTF-8 encoding and decoding) when it compares the fields of the codec
+attribute [irreducible] decRdDeg decFmtDeg
+
 /-- a printer with a fixed number of decimal digits: numbers are counted in units of 10⁻⁴, printed in units of 10⁻³
-    (rounded up, so that a non-zero number never prints as zero), as a decimal numeral -/
+    (rounded up, so that a non-zero number never prints as zero), as a decimal numeral; the "sexagesimal" text is a
+    second, coarser printer (units of 10⁻², marked by a leading `d`) -/
 def decCodec : Codec Nat :=
   { fmt := fun n => Nat.repr ((n + 9) / 10), rd := fun t => t.toNat?.map (· * 10), zero := 0, isZero := (· == 0),
     neg := id, fmtI := fun i => Nat.repr (i + 1).toNat, rdI := fun t => t.toNat?.map (fun m => (m : Int) - 1),
-    latOut := id, latIn := id, fmtDeg := fun _ => "", rdDeg := fun _ => none, toSec := id, fromSec := id,
+    latOut := id, latIn := id,
+    fmtDeg := decFmtDeg, rdDeg := decRdDeg,
+    toSec := swap1, fromSec := swap1,
     pos := fun n => 0 < n, lt1 := fun _ => true, ellKnown := fun e => e == "wgs84", sdDist := fun s d => s * d }
 
 def decQ (n : Nat) : Nat := (n + 9) / 10 * 10
+def decQd (n : Nat) : Nat := (n + 99) / 100 * 100
 
 theorem repr_ne_empty (m : Nat) : Nat.repr m ≠ "" :=
   (String.isNat_iff.mp (Nat.isNat_repr m)).1
 
-theorem decCodec_printer : decCodec.Printer decQ :=
+/-- a decimal numeral does not start with the letter that marks the sexagesimal text -/
+theorem repr_not_d (m : Nat) (r : List Char) : (Nat.repr m).toList ≠ 'd' :: r := by
+  intro h
+  have hd := (String.isNat_iff.mp (Nat.isNat_repr m)).2.1 'd' (by rw [h]; exact List.mem_cons_self)
+  revert hd
+  decide
+
+theorem decCodec_printer : decCodec.Printer decQ decQd :=
   { rd_fmt := fun x => by simp [decCodec, decQ, Nat.toNat?_repr]
     fmt_q := fun x => by
       have : ((x + 9) / 10 * 10 + 9) / 10 = (x + 9) / 10 := by omega
@@ -52,8 +103,26 @@ theorem decCodec_printer : decCodec.Printer decQ :=
       omega
     latIn_latOut := fun _ => rfl
     latOut_latIn := fun _ => rfl
-    rdDeg_fmt := fun _ => rfl
-    fmt_ne := fun x => repr_ne_empty _ }
+    rdDeg_fmt := fun x => by
+      show decRdDeg (Nat.repr ((x + 9) / 10)) = none
+      exact decRdDeg_repr _ (repr_not_d _)
+    fmt_ne := fun x => repr_ne_empty _
+    rdDeg_fmtDeg := fun x => by
+      show decRdDeg (decFmtDeg x) = some (decQd x)
+      exact decRdDeg_fmtDeg x
+    fmtDeg_qd := fun x => by
+      show decFmtDeg (decQd x) = decFmtDeg x
+      exact decFmtDeg_round x
+    fromSec_toSec := fun x => by
+      show swap1 (swap1 x) = x
+      exact swap1_swap1 x
+    toSec_fromSec := fun x => by
+      show swap1 (swap1 x) = x
+      exact swap1_swap1 x }
+
+instance : DecidablePred (fun x : Nat => decQ x = x) := fun x => inferInstanceAs (Decidable (decQ x = x))
+instance : DecidablePred (fun x : Nat => decQd x = x) := fun x => inferInstanceAs (Decidable (decQd x = x))
+
 /-- numbers with a last digit the printer drops; en + left-handed is inconsistent (y, dy mirrored) -/
 def lossyNet : Net Nat :=
   { head := ⟨.en, true, some 20213⟩, descr := "lossy",
@@ -62,25 +131,21 @@ def lossyNet : Net Nat :=
                ⟨"C", some (6, 7), none, .unused, .unused⟩],
     clusters := [.vectors [⟨"A", "B", 31, 32, 33, 0, 0, ""⟩] ⟨3, 2, [11, 1, 2, 12, 3, 13]⟩] }
 
-theorem lossyNet_WF : (quantNet decCodec decQ lossyNet).WF decCodec (fun x => decQ x = x) := by
-  refine ⟨⟨by decide, by decide, by decide, ?_, ?_, by decide, ?_⟩, rfl, ?_, ?_, by decide, ?_⟩
-  · intro a h; cases h; decide
-  · intro e h; cases h; decide
-  · refine ⟨by decide, by decide, by decide, ?_⟩
-    intro l h; cases h; decide
-  · intro e h; cases h; decide
-  · intro p hp
-    simp only [quantNet, lossyNet, List.map, List.mem_cons, List.not_mem_nil, or_false] at hp
-    rcases hp with rfl | rfl | rfl <;> exact ⟨by decide, by simp [Point.Rep, quantPoint, decQ]⟩
-  · intro c hc
-    simp only [quantNet, lossyNet, List.map, List.mem_cons, List.not_mem_nil, or_false] at hc
-    subst hc
-    refine ⟨?_, by decide, by decide, by decide, by decide, ?_⟩
-    · intro v hv
-      cases hv with
-      | head => exact ⟨by decide, by decide, ⟨rfl, rfl⟩, by decide, by decide, by decide⟩
-      | tail _ h => cases h
-    · intro x hx
-      simp only [quantCov, List.map, List.mem_cons, List.not_mem_nil, or_false] at hx
-      rcases hx with rfl | rfl | rfl | rfl | rfl | rfl <;> decide
+theorem lossyNet_WF : (quantNet decCodec decQ decQd lossyNet).WF decCodec (fun x => decQ x = x) (fun x => decQd x = x) := by
+  decide
+
+/-- the same with output in degrees (`angles="360"`), an `<obs>` cluster with a direction, an angle, a distance and a
+    full covariance matrix: sexagesimal values, standard deviations and covariances in seconds -/
+def lossyNetDeg : Net Nat :=
+  { lossyNet with
+    par := { lossyNet.par with gons := false },
+    clusters := lossyNet.clusters ++
+      [.obs ⟨"A", [⟨.direction, "A", "B", "", 123456, 1003, 0, 1502, 0, ""⟩, ⟨.distance, "A", "B", "", 50005, 101, 0, 0, 0, "e"⟩,
+                   ⟨.angle, "A", "B", "C", 234567, 2001, 1701, 0, 1203, ""⟩]⟩
+         (some ⟨3, 2, [1006009, 17, 23, 10201, 31, 4004001]⟩)] }
+
+theorem lossyNetDeg_WF :
+    (quantNet decCodec decQ decQd lossyNetDeg).WF decCodec (fun x => decQ x = x) (fun x => decQd x = x) := by
+  decide
+
 end Gama.Export
